@@ -176,4 +176,28 @@ CLAIMED["C17"] = dict(
          "(reflective dump of inspect.getmembers and Base.subclasses). Partial: that a 2008 override's match() accepts "
          "at least what its 2003 namesake accepts is statement-level and only checked end-to-end.",
     technique="Rocq proof by computation on regenerated registry tables (model of _setup = real registry; no alternative dropped) + both-parser search")
+CLAIMED["C10"] = dict(
+    design_ref="DESIGN.md 4 (C10), 3.4",
+    text="Theorems: walk() and _set_parent() agree on what a node's children are for every nesting of lists and "
+         "tuples (induction over the container structure); the live functions are the list-descending variants "
+         "(probed on every run; the skipping variant is refuted); statement nodes are the source items, each once, in "
+         "source order (engine K2, regenerated tables, every leaf oracle). Tie: probes of the live helpers + engine "
+         "correspondence. Search: every node of the trees of generated programs and of their re-parse: uniqueness, "
+         "parent links (nested containers included), get_root, walk order, print order.",
+    note=ENGINE_NOTE + " Partial: the mutable up-links (Base.parent set at construction, re-set when a cached "
+         "statement object is adopted by the surviving parent) are not in the engine model; they are checked on every "
+         "node of every explored tree.",
+    technique="Rocq proof (walk/_set_parent agreement by induction over containers; engine K2) + probe-selected variants + per-node invariant search")
+CLAIMED["C18"] = dict(
+    design_ref="DESIGN.md 4 (C18), 3.5",
+    text="Theorems: the default copy protocol (re-create by __newobj__(cls, *__getnewargs__()), copy the state, memo "
+         "redirects parent links) applied to ANY tree yields a tree of the same structure, with consistent parent "
+         "links and fresh node identities (induction over the tree); every node class of the live code satisfies the "
+         "protocol's precondition (per protocol group a real instance is rebuilt by cls.__new__(cls, *getnewargs), no "
+         "class defines a hook replacing the default protocol), re-established from probes on every run. Search: "
+         "deepcopy and pickle of generated trees x standards x comment modes x reader kinds: text, structure, C10 "
+         "invariants on the copy, disjoint identities, mutation isolation.",
+    note="Trusted: Coq kernel; tools/translate_copy.py (probes). Partial: Python's copy/pickle internals are modelled "
+         "only as far as the two hooks and the memo; one recorded finding (trees from FortranFileReader).",
+    technique="Rocq proof (copy protocol on trees by induction) + probed per-class protocol table + deepcopy/pickle search")
 NOT_CLAIMED = {}
